@@ -36,14 +36,14 @@ func init() {
 				}
 				asm := &core.FlowSpec{Assume: func(c *core.Ctx, e ast.Expr) core.Tri {
 					// the real-recipient test only applies when it differs from To (otherwise To was already tested)
-					if op, ok := core.CmpAtom(c, e, core.FromCall(0, txm+"GetRealToAddr"), core.CallsAny(txm+"GetTo")); ok && op == token.NEQ {
-						return core.True
+					if t := core.AssumeRel(core.FromCall(0, txm+"GetRealToAddr"), token.NEQ, core.CallsAny(txm+"GetTo"), core.True)(c, e); t != core.Unknown {
+						return t
 					}
-					if op, ok := core.CmpAtom(c, e, core.FromCall(0, "types.(*EVMContractAction4Chain33).GetContractAddr"), func(c *core.Ctx, e ast.Expr) bool {
+					if t := core.AssumeRel(core.FromCall(0, "types.(*EVMContractAction4Chain33).GetContractAddr"), token.NEQ, func(c *core.Ctx, e ast.Expr) bool {
 						bl, ok := ast.Unparen(e).(*ast.BasicLit)
 						return ok && bl.Value == `""`
-					}); ok && op == token.NEQ {
-						return core.True
+					}, core.True)(c, e); t != core.Unknown {
+						return t
 					}
 					return core.Unknown
 				}}
@@ -145,7 +145,7 @@ func init() {
 				if f != nil {
 					c := f.Ctx()
 					ok := false
-					ast.Inspect(f.Body(), func(x ast.Node) bool {
+					core.InspectBody(f, func(x ast.Node) bool {
 						as, isAs := x.(*ast.AssignStmt)
 						if isAs && len(as.Rhs) == 1 && core.CallAtom([]string{ex + "proxyExecTx"})(c, as.Rhs[0]) && len(as.Lhs) == 2 && core.IsObj("param:1")(c, as.Lhs[0]) {
 							ok = true
@@ -169,8 +169,8 @@ func init() {
 					if isBL(c, e) {
 						return core.True
 					}
-					if op, ok := core.CmpAtom(c, e, core.IsObj("param:0"), isNilLit); ok && op == token.EQL {
-						return core.False
+					if t := core.AssumeRel(core.IsObj("param:0"), token.EQL, isNilLit, core.False)(c, e); t != core.Unknown {
+						return t
 					}
 					return core.Unknown
 				}}, Callee: []string{"types.checkTxBlockedAccountCore"}, Fail: core.OErrNonNil, Idx: -1, Forbidden: core.SuccessReturn(-1), Min: 1, Name: "core check error (fork active)"}.Check(r)
@@ -178,7 +178,7 @@ func init() {
 				if f != nil {
 					c := f.Ctx()
 					gated := false
-					ast.Inspect(f.Body(), func(x ast.Node) bool {
+					core.InspectBody(f, func(x ast.Node) bool {
 						if e, ok := x.(ast.Expr); ok && isBL(c, e) {
 							gated = true
 						}
@@ -205,7 +205,7 @@ func init() {
 					return
 				}
 				norm := ""
-				ast.Inspect(ld.Body(), func(x ast.Node) bool {
+				core.InspectBody(ld, func(x ast.Node) bool {
 					as, ok := x.(*ast.AssignStmt)
 					if !ok || len(as.Lhs) != 1 || !core.IsObj("param:0")(ld.Ctx(), as.Lhs[0]) {
 						return true
@@ -286,7 +286,7 @@ func init() {
 					grpTxs := core.Mentions("types.Transactions.Txs")
 					var counted, whole bool
 					sized := false
-					ast.Inspect(f.Body(), func(x ast.Node) bool {
+					core.InspectBody(f, func(x ast.Node) bool {
 						switch s := x.(type) {
 						case *ast.AssignStmt:
 							if s.Tok == token.ADD_ASSIGN && len(s.Lhs) == 1 && isCount(c, s.Lhs[0]) && lenOfDeep(grpTxs)(c, s.Rhs[0]) {
@@ -429,7 +429,7 @@ func init() {
 				// whole range nil-ed: for j := i; j < i+groupCount; j++ { txs[j] = nil }
 				c := f.Ctx()
 				ok := false
-				ast.Inspect(f.Body(), func(x ast.Node) bool {
+				core.InspectBody(f, func(x ast.Node) bool {
 					fs, isFor := x.(*ast.ForStmt)
 					if !isFor || fs.Init == nil || fs.Cond == nil || fs.Post == nil {
 						return true
